@@ -688,7 +688,7 @@ theorem pstep_arrShare {s : OS} {L : List Block} (hI : OInv s L) (h src : Nat) (
               obtain ⟨rfl, rfl, rfl⟩ := hview
               exact ⟨by omega, fun _ => rfl⟩
             | some xs =>
-              exact ⟨sliceAux_bound xs _ _ hview, fun e => by simp at e⟩
+              exact ⟨sliceView_bound xs _ _ hview, fun e => by simp at e⟩
           refine oinv_maplinks hI _ (by intro u; split <;> simp) h _ ?_ ?_
           · intro u hu
             have hk := hI.links u hu
